@@ -154,3 +154,54 @@ func RawZip(parts []Part) []byte {
 	zw.Close()
 	return buf.Bytes()
 }
+
+const (
+	NsA   = "http://schemas.openxmlformats.org/drawingml/2006/main"
+	NsWP  = "http://schemas.openxmlformats.org/drawingml/2006/wordprocessingDrawing"
+	NsPic = "http://schemas.openxmlformats.org/drawingml/2006/picture"
+
+	CtStyles    = "application/vnd.openxmlformats-officedocument.wordprocessingml.styles+xml"
+	CtHeader    = "application/vnd.openxmlformats-officedocument.wordprocessingml.header+xml"
+	CtFooter    = "application/vnd.openxmlformats-officedocument.wordprocessingml.footer+xml"
+	CtNumbering = "application/vnd.openxmlformats-officedocument.wordprocessingml.numbering+xml"
+	CtFootnotes = "application/vnd.openxmlformats-officedocument.wordprocessingml.footnotes+xml"
+	CtSettings  = "application/vnd.openxmlformats-officedocument.wordprocessingml.settings+xml"
+	CtTheme     = "application/vnd.openxmlformats-officedocument.theme+xml"
+	CtFontTable = "application/vnd.openxmlformats-officedocument.wordprocessingml.fontTable+xml"
+	CtCore      = "application/vnd.openxmlformats-package.core-properties+xml"
+	CtApp       = "application/vnd.openxmlformats-officedocument.extended-properties+xml"
+)
+
+// DrawingPara returns a paragraph with an inline picture whose blip embeds rid.
+func DrawingPara(rid string, id int, cx, cy int64) string {
+	return fmt.Sprintf(`<w:p><w:r><w:drawing><wp:inline xmlns:wp="%s" distT="0" distB="0" distL="0" distR="0"><wp:extent cx="%d" cy="%d"/><wp:docPr id="%d" name="Picture %d"/><a:graphic xmlns:a="%s"><a:graphicData uri="%s"><pic:pic xmlns:pic="%s"><pic:nvPicPr><pic:cNvPr id="%d" name="p%d"/><pic:cNvPicPr/></pic:nvPicPr><pic:blipFill><a:blip r:embed="%s"/><a:stretch><a:fillRect/></a:stretch></pic:blipFill><pic:spPr><a:xfrm><a:off x="0" y="0"/><a:ext cx="%d" cy="%d"/></a:xfrm><a:prstGeom prst="rect"><a:avLst/></a:prstGeom></pic:spPr></pic:pic></a:graphicData></a:graphic></wp:inline></w:drawing></w:r></w:p>`,
+		NsWP, cx, cy, id, id, NsA, NsPic, NsPic, id, id, rid, cx, cy)
+}
+
+// StylesXML is a small styles part with its own style ids.
+func StylesXML() []byte {
+	return []byte(`<?xml version="1.0" encoding="UTF-8" standalone="yes"?>` + "\n" + `<w:styles xmlns:w="` + NsW + `"><w:docDefaults><w:rPrDefault><w:rPr><w:sz w:val="22"/></w:rPr></w:rPrDefault></w:docDefaults><w:style w:type="paragraph" w:default="1" w:styleId="Normal"><w:name w:val="Normal"/></w:style><w:style w:type="paragraph" w:styleId="ForeignPara"><w:name w:val="Foreign Para"/><w:basedOn w:val="Normal"/><w:rPr><w:b/></w:rPr></w:style><w:style w:type="character" w:styleId="ForeignChar"><w:name w:val="Foreign Char"/></w:style><w:style w:type="table" w:styleId="ForeignTable"><w:name w:val="Foreign Table"/></w:style></w:styles>`)
+}
+
+// HeaderXML / FooterXML are header/footer parts with one paragraph.
+func HeaderXML(text string) []byte {
+	return []byte(`<?xml version="1.0" encoding="UTF-8" standalone="yes"?>` + "\n" + `<w:hdr xmlns:w="` + NsW + `" xmlns:r="` + NsR + `"><w:p><w:r><w:t>` + text + `</w:t></w:r></w:p></w:hdr>`)
+}
+func FooterXML(text string) []byte {
+	return []byte(`<?xml version="1.0" encoding="UTF-8" standalone="yes"?>` + "\n" + `<w:ftr xmlns:w="` + NsW + `" xmlns:r="` + NsR + `"><w:p><w:r><w:t>` + text + `</w:t></w:r></w:p></w:ftr>`)
+}
+
+// NumberingXML defines abstractNum 7 / num 3 (decimal, start 4).
+func NumberingXML() []byte {
+	return []byte(`<?xml version="1.0" encoding="UTF-8" standalone="yes"?>` + "\n" + `<w:numbering xmlns:w="` + NsW + `"><w:abstractNum w:abstractNumId="7"><w:multiLevelType w:val="hybridMultilevel"/><w:lvl w:ilvl="0"><w:start w:val="4"/><w:numFmt w:val="decimal"/><w:lvlText w:val="%1)"/><w:lvlJc w:val="left"/></w:lvl></w:abstractNum><w:num w:numId="3"><w:abstractNumId w:val="7"/></w:num></w:numbering>`)
+}
+
+// ListPara is a paragraph using num 3.
+func ListPara(text string) string {
+	return `<w:p><w:pPr><w:numPr><w:ilvl w:val="0"/><w:numId w:val="3"/></w:numPr></w:pPr><w:r><w:t>` + text + `</w:t></w:r></w:p>`
+}
+
+// Para is a plain paragraph.
+func Para(text string) string {
+	return `<w:p><w:r><w:t xml:space="preserve">` + text + `</w:t></w:r></w:p>`
+}
